@@ -35,3 +35,83 @@ func H_C14_collinear_nf1() {
 	want := vCross(a, b, c) == 0
 	vAssert("C14.collinear.iff", got == want)
 }
+
+// H_C14_cross: CrossProduct's sign and zero-ness are those of the exact integer
+// cross product.
+func H_C14_cross() {
+	a, b, c := vPt("a", vB29), vPt("b", vB29), vPt("c", vB29)
+	d := CrossProduct(a, b, c)
+	exact := vCross(a, b, c)
+	vCover("C14.cross.reached")
+	vAssert("C14.cross.zero", (d == 0) == (exact == 0))
+	vAssert("C14.cross.negative", (d < 0) == (exact < 0))
+}
+
+// vOnSeg: p lies on the closed segment ab (exact).
+func vOnSeg(a, b, p Point64) bool {
+	return vAnd(vCrossP(a, b, p) == 0, vAnd(vAnd(p.X >= vMin(a.X, b.X), p.X <= vMax(a.X, b.X)), vAnd(p.Y >= vMin(a.Y, b.Y), p.Y <= vMax(a.Y, b.Y))))
+}
+
+// H_C14_pip: PointInPolygon on a fully symbolic n-gon versus exact integer
+// arithmetic (on-boundary test and even-odd crossing parity).
+func H_C14_pip(n int64) {
+	poly := vPathN("v", int(n), vB29)
+	pt := vPt("p", vB29)
+	// not contained in one horizontal line
+	flat := true
+	for i := 1; i < len(poly); i++ {
+		flat = vAnd(flat, poly[i].Y == poly[0].Y)
+	}
+	vAssume(!flat)
+	got := PointInPolygon(pt, poly)
+	on := false
+	cnt := int64(0)
+	m := len(poly)
+	for i := 0; i < m; i++ {
+		a, b := poly[i], poly[(i+1)%m]
+		on = vOr(on, vOnSeg(a, b, pt))
+		cr := vCrossP(a, b, pt)
+		up := vAnd(vAnd(a.Y <= pt.Y, pt.Y < b.Y), cr > 0)
+		dn := vAnd(vAnd(b.Y <= pt.Y, pt.Y < a.Y), cr < 0)
+		cnt += vIte(vOr(up, dn), 1, 0)
+	}
+	inside := cnt%2 != 0
+	vCover("C14.pip.reached")
+	vAssert("C14.pip.on", (got == IsOn) == on)
+	vAssert("C14.pip.inside", vImplies(!on, (got == IsInside) == inside))
+}
+
+// H_C14_area: Area64 / IsPositive64 / AreaPaths64 versus the exact shoelace sum.
+func H_C14_area(n int64) {
+	p := vPathN("v", int(n), vB29)
+	s := vShoelace(p)
+	a := Area64(p)
+	vCover("C14.area.reached")
+	// equal to half the exact sum up to float64 rounding (a few ulps)
+	diff := a*2 - float64(s)
+	if diff < 0 {
+		diff = -diff
+	}
+	mag := float64(s)
+	if mag < 0 {
+		mag = -mag
+	}
+	vAssert("C14.area.twice-area-is-shoelace", diff <= mag*1e-15)
+	vAssert("C14.area.zero-iff", (a == 0) == (s == 0))
+	vAssert("C14.area.ispositive", IsPositive64(p) == (s >= 0))
+	q := Path64{p[0], p[1], p[2]}
+	vAssert("C14.area.paths-sum", AreaPaths64(Paths64{p, q}) == a+Area64(q))
+}
+
+// H_C14_bounds: GetBounds64 returns the exact extremes.
+func H_C14_bounds(n int64) {
+	p := vPathN("v", int(n), vB29)
+	r := GetBounds64(p)
+	l, t, rr, b := p[0].X, p[0].Y, p[0].X, p[0].Y
+	for _, pt := range p[1:] {
+		l, rr = vMin(l, pt.X), vMax(rr, pt.X)
+		t, b = vMin(t, pt.Y), vMax(b, pt.Y)
+	}
+	vCover("C14.bounds.reached")
+	vAssert("C14.bounds.exact", vAnd(vAnd(r.left == l, r.right == rr), vAnd(r.top == t, r.bottom == b)))
+}
